@@ -986,4 +986,92 @@ mod tests {
         put_varint(&mut v, 15293);
         assert_eq!(v, [0x7b, 0xbd]);
     }
+
+    #[test]
+    fn encoder_and_parser_agree() {
+        let frames = vec![
+            Frame::Padding { len: 3 },
+            Frame::Ping,
+            Frame::Ack {
+                largest: 100,
+                delay: 16384,
+                ranges: vec![(90, 100), (80, 88), (0, 0)],
+                ecn: Some((1, 2, 1 << 30)),
+            },
+            Frame::Crypto {
+                offset: 63,
+                data: vec![1, 2, 3],
+            },
+            Frame::NewConnectionId {
+                seq: 5,
+                retire_prior_to: 2,
+                cid: vec![9; 20],
+                token: [7; 16],
+            },
+            Frame::ConnectionClose {
+                transport: true,
+                code: 0x0a,
+                frame_type: Some(0x1e),
+                reason: b"bye".to_vec(),
+            },
+            Frame::DcStatelessResetTokens {
+                tokens: vec![[1; 16], [2; 16]],
+            },
+            Frame::MtuProbingComplete { mtu: 1500 },
+            Frame::Stream {
+                id: 4,
+                offset: 1 << 14,
+                data: vec![0xaa; 5],
+                fin: true,
+                has_len: false,
+                has_off: true,
+            },
+        ];
+        let mut b = Vec::new();
+        for f in &frames {
+            put_frame(&mut b, f);
+        }
+        assert_eq!(frames(&b).unwrap(), frames);
+        // RFC 9000 19.3.1 worked layout: largest 100, first range 10, gap 0 (=> 88), len 8
+        assert_eq!(&b[4..12], &[0x02, 0x40, 100, 0x80, 0, 0x40, 0, 2]);
+        // the same frames with every field in its longest form parse to the same values
+        let mut l = Vec::new();
+        for f in &frames {
+            put_frame_with(&mut l, f, &mut |_| 8);
+        }
+        assert!(l.len() > b.len());
+        assert_eq!(super::frames(&l).unwrap(), frames);
+    }
+
+    #[test]
+    fn lenient_notes() {
+        // MAX_STREAMS 2^60 + 1
+        let mut b = vec![0x12];
+        put_varint(&mut b, (1 << 60) + 1);
+        assert!(matches!(frames(&b), Err(WireError::Invalid(_))));
+        let mut n = Notes::default();
+        let f = frame_ex(&mut Cur::new(&b), &mut n).unwrap();
+        assert_eq!(
+            f,
+            Frame::MaxStreams {
+                bidi: true,
+                max: (1 << 60) + 1
+            }
+        );
+        assert!(n.soft.is_some() && !n.type_non_minimal);
+        // PING with a two-byte frame type
+        let mut n = Notes::default();
+        assert_eq!(frame_ex(&mut Cur::new(&[0x40, 0x01]), &mut n), Ok(Frame::Ping));
+        assert!(n.type_non_minimal);
+        // ACK whose first range reaches below zero stays a hard error
+        assert!(frame_ex(&mut Cur::new(&[0x02, 1, 0, 0, 2]), &mut Notes::default()).is_err());
+        // Retry needs room for the integrity tag
+        let mut r = vec![0xf0, 0, 0, 0, 1, 0, 0];
+        r.extend_from_slice(&[0; 15]);
+        assert_eq!(header(&r, 0), Err(WireError::Truncated));
+        r.push(0);
+        let mut hn = HeaderNotes::default();
+        assert!(header_ex(&r, 0, &mut hn).is_ok());
+        assert_eq!(hn.soft, Some("retry with an empty token"));
+    }
 }
